@@ -109,6 +109,8 @@ package main
 //@ func (p *program) Start$1()
 //@   props C14 C15
 //@   requires p != nil && p.nsqlookupd != nil
+//   (round 7) the daemon Main runs on was built by New (checked at the `go` statement of Start, from New/[listeners-open], [daemon-is-wired])
+//@   requires[daemon-built-by-New] p.nsqlookupd.tcpListener != nil && p.nsqlookupd.tcpServer != nil && p.nsqlookupd.httpListener != nil
 //@   onspawn r6KLMainSpawns := r6KLMainSpawns + 1
 //@   onspawn r6KLSpawnSawListenOK := r5GListenOK
 //@   onspawn r6KLSpawnSawResolves := r6KLResolves
